@@ -1400,370 +1400,3 @@ theorem borders_solo_value (kcs : List KCall) (t : Nat) (md : Mode) (vA vOut vBc
 
 
 end Mahotas.C12
-
-/-! # property theorems (to be placed in `Properties/C12.lean`) -/
-
-open Mahotas Mahotas.C12
-
-/-- **C12-T4 (confinement of eight more kernels).** Each access program of `Model/C12Kernels2.lean` —
-`dilate` (scatter: `std::fill`, then read-modify-writes of the RESULT at the clamped neighbour positions),
-`rank_filter` (gather into the call's private `neighbours` buffer, `nth_element` inside that buffer, one
-store per pixel), `template_match` (reads the image and the template, one store per pixel), `cooccurence`
-(read-modify-write of `res[val][val2]`, address generated from the image content), `dist_transform`/`py_dt`
-(reads and writes only the call's own array `f`, `orig` and its heap buffers `z`, `v`, `Df`, `ot`), `borders`
-(reads up to the first differing neighbour, stores `true`), `thin` (work image, buffer, element table and
-`any_change`, all owned) and `zoom_shift` (tables, `idxs`, knots of the input, one store per output
-element) — called on ANY footprint `c` with at least one owned array, for ALL shapes, strides, base
-offsets, element values, border modes, ranks, orders:
-(1) every step writes an array the call owns and reads only argument arrays or owned arrays (`KStep.Within`),
-(2) the write set lies in the outputs, (3) the read set lies in inputs ∪ outputs,
-(4) in every family of calls with disjoint outputs in which this call is number `t`, every step of the
-compiled thread program is `Step.Confined t`.
-As for the first five kernels this is a statement about the hand-written access programs (they follow the
-C++ by reading); see `C12_more_kernels_roles_ok` for "no role falls back to the default array". -/
-theorem C12_more_kernels_confined (k : Kernel2) (c : Call) (hne : c.outputs ≠ []) :
-    (∀ s ∈ (k.call c).prog, s.Within c) ∧
-    (∀ l ∈ writeSet (k.call c).prog, l.arr ∈ c.outputs) ∧
-    (∀ l ∈ readSet (k.call c).prog, l.arr ∈ c.inputs ∨ l.arr ∈ c.outputs) ∧
-    (∀ (kcs : List KCall) (t : Nat), kcs[t]? = some (k.call c) → DisjointOutputs (kcs.map (·.call)) →
-      ∀ s ∈ compile kcs t, s.Confined t) := by
-  have hw : ∀ s ∈ (k.call c).prog, s.Within c := prog_within (k.call c) hne
-  refine ⟨hw, ?_, ?_, ?_⟩
-  · intro l hl
-    simp only [writeSet, List.mem_map] at hl
-    obtain ⟨s, hs, rfl⟩ := hl
-    exact (hw s hs).1
-  · intro l hl
-    simp only [readSet, List.mem_flatMap] at hl
-    obtain ⟨s, hs, hl⟩ := hl
-    exact (hw s hs).2 l hl
-  · intro kcs t ht hd s hs
-    unfold compile at hs
-    rw [ht] at hs
-    simp only [List.mem_map] at hs
-    obtain ⟨ks, hks, rfl⟩ := hs
-    exact compile_step_confined _ hd t c (by simp [ht, Kernel2.call]) ks (hw ks hks)
-
-/-- **C12-T4 (roles within the arity).** For every kernel of the second batch and every step `r` of its
-role-level program, every role `r` mentions exists in a call of the kernel's arity
-(`RStep.rolesOk k.arity`: the destination index is below the number of owned arrays, every source
-`inp i` / `own i` below the number of argument / owned arrays).  Consequently, on a footprint `c` with exactly
-`k.arity.1` argument arrays and `k.arity.2` owned arrays NO role falls back to the default array: the step
-`mkStep c r` writes the array `c.outputs[r.dst]`, and every source role `inp i` / `own i` resolves to
-`c.inputs[i]` / `c.outputs[i]`. -/
-theorem C12_more_kernels_roles_ok (k : Kernel2) :
-    (∀ r ∈ k.raw, r.rolesOk k.arity = true) ∧
-    (∀ (c : Call), c.inputs.length = k.arity.1 → c.outputs.length = k.arity.2 → ∀ r ∈ k.raw,
-      (∃ h : r.dst < c.outputs.length, (mkStep c r).dst.arr = c.outputs[r.dst]) ∧
-      (∀ l ∈ r.srcs, match l.role with
-        | .inp i => ∃ h : i < c.inputs.length, c.arrOf l.role = c.inputs[i]
-        | .own i => ∃ h : i < c.outputs.length, c.arrOf l.role = c.outputs[i])) :=
-  ⟨kernel2_rolesOk k, fun c hi ho r hr => mkStep_resolved c k.arity r (kernel2_rolesOk k r hr) hi ho⟩
-
-/-- **C12-T4 (concurrent calls are independent — generic).** Take ANY list of native calls in flight, each
-given by its footprint and an ARBITRARY role-level program (so any mix of the kernels of both batches,
-`Kernel.call` and `Kernel2.call`, and any other program written in the vocabulary), call number `t` being
-`kcs[t]`, such that every call owns at least one array and the outputs are disjoint: an array owned by one
-call is neither owned nor read by another call (shared ARGUMENT arrays are allowed). Then for EVERY schedule
-and every initial memory:
-(1) after the interleaved run every location of every array owned by call `t` holds exactly what it holds
-after `t` has run alone for as many turns as the schedule gave it — in particular
-(2) for a complete schedule, exactly the result of its complete solo run — and
-(3) every array that no call owns (the shared inputs) is unchanged.
-Only `compile_confined` (via the generic `mkStep_within`) is used: nothing depends on which kernels run. -/
-theorem C12_concurrent_calls_independent (kcs : List KCall)
-    (hne : ∀ kc ∈ kcs, kc.call.outputs ≠ []) (hd : DisjointOutputs (kcs.map (·.call)))
-    (sched : List Nat) (m : Mem) :
-    let calls := kcs.map (·.call)
-    (∀ (t : Nat) (kc : KCall), kcs[t]? = some kc → ∀ l : KLoc, l.arr ∈ kc.call.outputs →
-      (run (compile kcs) sched (init m)).mem (l.toLoc calls) =
-        (soloSteps (compile kcs) t (sched.count t) m).mem (l.toLoc calls) ∧
-      (Complete (compile kcs) sched →
-        (run (compile kcs) sched (init m)).mem (l.toLoc calls) = solo (compile kcs) t m (l.toLoc calls))) ∧
-    (∀ l : KLoc, (∀ kc ∈ kcs, l.arr ∉ kc.call.outputs) →
-      (run (compile kcs) sched (init m)).mem (l.toLoc calls) = m (l.toLoc calls)) := by
-  intro calls
-  have hconf : Confined (compile kcs) := compile_confined kcs hne hd
-  refine ⟨?_, ?_⟩
-  · intro t kc ht l hl
-    have hreg : (l.toLoc calls).region = .priv t :=
-      region_of_output calls hd t kc.call (by simp [calls, ht]) l.arr hl
-    have hview := view_run (compile kcs) hconf t sched (init m)
-    have h1 : (run (compile kcs) sched (init m)).mem (l.toLoc calls) =
-        (soloSteps (compile kcs) t (sched.count t) m).mem (l.toLoc calls) := hview.2 _ (Or.inl hreg)
-    refine ⟨h1, fun hs => ?_⟩
-    rw [h1]
-    unfold solo
-    rw [soloSteps_ge (compile kcs) t _ m (hs t)]
-  · intro l hl
-    apply run_nonpriv (compile kcs) hconf sched (init m)
-    intro t ht
-    have hreg : regionOfArr calls l.arr = .priv t := ht
-    unfold regionOfArr at hreg
-    cases h : ownerFrom calls 0 l.arr with
-    | none => rw [h] at hreg; cases hreg
-    | some u =>
-      obtain ⟨i, ci, h1, _, h3⟩ := ownerFrom_some calls 0 l.arr u h
-      simp only [calls, List.getElem?_map, Option.map_eq_some_iff] at h1
-      obtain ⟨kc, hkc, rfl⟩ := h1
-      exact absurd h3 (hl kc (List.mem_of_getElem? hkc))
-
-/-- **C12-T4 (tie: the template_match program computes `C07.tmAt`).** Let call number `t` of ANY family of
-calls be `template_match` (`just_equality = false`, any border mode, any views of the image / result /
-template) on arrays `[aF, aT]` → `[aOut]`, the result array distinct from both arguments. If the initial memory
-presents the logical image `f` through the view `vA` at every position the border rule delivers, and the
-template `tp` at `t.data()[j]` (`vT.base + j`, `j` below the template size: the wrapper passes a C-contiguous
-template), and the result view does not overlap itself, then after the SOLO run of the compiled step program
-— one step per pixel whose operation recomputes `diff2` from the values READ from the image and from the
-template — the result location of pixel number `k` holds exactly `C07.tmAt mode f tshape tp (unravel k)`, the
-value of the model the driver runs (`c07 kind=tm`). With `C12_concurrent_calls_independent` the same value is
-there after every complete interleaving with any other calls that have disjoint outputs. -/
-theorem C12_template_match_program_computes_model (kcs : List KCall) (t : Nat) (md : Mode)
-    (vA vOut vT : C08.View) (aF aT aOut : Nat)
-    (hk : kcs[t]? = some ((Kernel2.templateMatch md false vA vOut vT).call ⟨[aF, aT], [aOut]⟩))
-    (hne1 : aF ≠ aOut) (hne2 : aT ≠ aOut)
-    (f : Img Int) (hshape : f.shape = vA.shape) (tp : Array Int) (m : Mem)
-    (hA : ∀ q q', fixPos md vA.shape q = some q' →
-        m ((KLoc.mk aF (vA.addr (q'.map Int.toNat))).toLoc (kcs.map (·.call))) = f.getD q' 0)
-    (hT : ∀ j : Nat, j < shapeSize vT.shape →
-        m ((KLoc.mk aT (vT.base + (j : Int))).toLoc (kcs.map (·.call))) = tp.getD j 0)
-    (hinj : ∀ k k', k < shapeSize vA.shape → k' < shapeSize vA.shape →
-        iterAddr vOut k = iterAddr vOut k' → k = k')
-    (k : Nat) (hkn : k < shapeSize vA.shape) :
-    solo (compile kcs) t m ((KLoc.mk aOut (iterAddr vOut k)).toLoc (kcs.map (·.call))) =
-      C07.tmAt md f vT.shape tp (unravelI vA.shape k) :=
-  templateMatch_solo_value kcs t md vA vOut vT aF aT aOut hk hne1 hne2 f hshape tp m hA hT hinj k hkn
-
-/-- **C12-T4 (tie: the rank_filter program computes `C07.rankAt`).** Let call number `t` of ANY family of calls
-be `rank_filter` (any border mode, any rank, any views, any structuring element) on arrays `[aA, aBc]` →
-`[aOut, aFd, aNb, aTmp]` (result, `filter_data_`, the private `neighbours` buffer, the locals of
-`nth_element`), the input array distinct from the owned ones and result / `neighbours` / locals pairwise
-distinct. If the initial memory presents the logical image `f` through the view `vA` at every position the
-border rule delivers and the result view does not overlap itself, then after the SOLO run of the compiled step
-program — per pixel: the samples are stored into `neighbours` one by one (`cval = 0` for a flagged sample in
-mode constant), the range is snapshot and written back sorted (one admissible outcome of `nth_element`), and
-`neighbours[currank]` is copied to the result — the result location of every pixel `k` at which the model is
-defined (`C07.rankAt … = some v`: rank inside `[0, N2)`, at least one sample) holds exactly `v`, the value of the
-model the driver runs (`c07 kind=rank`). The private buffer is reused by all pixels; that no later pixel
-disturbs an earlier result is part of the proof. With `C12_concurrent_calls_independent` the same value is there
-after every complete interleaving with any other calls that have disjoint outputs. -/
-theorem C12_rank_filter_program_computes_model (kcs : List KCall) (t : Nat) (md : Mode) (rank : Int)
-    (vA vOut vBc : C08.View) (bc : Array Int) (aA aBc aOut aFd aNb aTmp : Nat)
-    (hk : kcs[t]? = some ((Kernel2.rank md rank vA vOut vBc bc).call ⟨[aA, aBc], [aOut, aFd, aNb, aTmp]⟩))
-    (hA1 : aA ≠ aOut) (hA2 : aA ≠ aFd) (hA3 : aA ≠ aNb) (hA4 : aA ≠ aTmp)
-    (h1 : aOut ≠ aNb) (h2 : aOut ≠ aTmp) (h3 : aNb ≠ aTmp)
-    (f : Img Int) (hshape : f.shape = vA.shape) (m : Mem)
-    (hA : ∀ q q', fixPos md vA.shape q = some q' →
-        m ((KLoc.mk aA (vA.addr (q'.map Int.toNat))).toLoc (kcs.map (·.call))) = f.getD q' 0)
-    (hinj : ∀ k k', k < shapeSize vA.shape → k' < shapeSize vA.shape →
-        iterAddr vOut k = iterAddr vOut k' → k = k')
-    (k : Nat) (hkn : k < shapeSize vA.shape) (v : Int)
-    (hv : C07.rankAt md f (C07.footprint vBc.shape bc) rank (unravelI vA.shape k) = some v) :
-    solo (compile kcs) t m ((KLoc.mk aOut (iterAddr vOut k)).toLoc (kcs.map (·.call))) = v :=
-  rank_solo_value kcs t md rank vA vOut vBc bc aA aBc aOut aFd aNb aTmp hk hA1 hA2 hA3 hA4 h1 h2 h3 f hshape m hA
-    hinj k hkn v hv
-
-/-- **C12-T4 (tie: the dilate program computes `C01.dilateModel`).** Let call number `t` of ANY family of calls
-be `dilate` — a SCATTER kernel: after `std::fill(res, min)` every pixel raises the result at its (clamped)
-neighbour positions by read-modify-writes of the RESULT array — with any dtype, any view of the input, any
-structuring element of the image's rank, on arrays `[aA, aBc]` → `[aOut, aFd]`, the input array distinct from the
-owned ones. The result view has the image's shape and one stride per axis (any strides: then its iterator
-visits `addr (unravel i)`, `C08_iterator_visits_C_order`) and does not overlap itself. If the initial memory
-presents the logical image `A` through the iterator of `vA`, then after the SOLO run of the compiled step
-program the result location of pixel number `k` holds exactly `(C01.dilateModel dt A sup)[k]`, the value of
-the model the driver runs (`c01 kind=dilate`) — the `continue` at `*iter == min` and the conditional store
-`if (nval > arr_val)` included (the step stores the old value back where the C++ does not store). The proof
-carries the running result array of the model through all `N · N2` read-modify-writes (`dilate_step_inv`).
-With `C12_concurrent_calls_independent` the same value is there after every complete interleaving with any
-other calls that have disjoint outputs. -/
-theorem C12_dilate_program_computes_model (kcs : List KCall) (t : Nat) (dt : DT) (vA vOut vBc : C08.View)
-    (bc : Array Int) (aA aBc aOut aFd : Nat)
-    (hk : kcs[t]? = some ((Kernel2.dilate dt vA vOut vBc bc).call ⟨[aA, aBc], [aOut, aFd]⟩))
-    (hA1 : aA ≠ aOut) (hA2 : aA ≠ aFd)
-    (A : Img Int) (hshape : A.shape = vA.shape) (hpos : ∀ d ∈ vA.shape, 0 < d)
-    (hsup : ∀ kh ∈ C01.support vBc.shape bc dt.isBool, kh.1.length = vA.shape.length) (m : Mem)
-    (hA : ∀ i, i < shapeSize vA.shape →
-        m ((KLoc.mk aA (iterAddr vA i)).toLoc (kcs.map (·.call))) = A.getD (unravelI vA.shape i) dt.lo)
-    (hOshape : vOut.shape = vA.shape) (hOlen : vOut.strides.length = vOut.shape.length)
-    (hinj : ∀ k k', k < shapeSize vA.shape → k' < shapeSize vA.shape →
-        iterAddr vOut k = iterAddr vOut k' → k = k')
-    (k : Nat) (hkn : k < shapeSize vA.shape) :
-    solo (compile kcs) t m ((KLoc.mk aOut (iterAddr vOut k)).toLoc (kcs.map (·.call))) =
-      (C01.dilateModel dt A (C01.support vBc.shape bc dt.isBool)).getD k dt.lo :=
-  dilate_solo_value kcs t dt vA vOut vBc bc aA aBc aOut aFd hk hA1 hA2 A hshape hpos hsup m hA
-    (fun i hi => by
-      have := iterAddr_eq_addr vOut hOlen i (by rw [hOshape]; exact hi)
-      rw [hOshape] at this
-      exact this) hinj k hkn
-
-/-- **C12-T4 (tie: the cooccurence program computes `C19.coocModel`).** Let call number `t` of ANY family of
-calls be `cooccurence` on arrays `[aA, aBc]` → `[aRes, aFd, aReg]` (result matrix, `filter_data_`, register), the
-image array distinct from the owned ones and the result array distinct from the other two, with a structuring
-element whose FIRST non-zero entry is at offset `d` (of the image's rank). Let the image view have one stride per
-axis, let the initial memory of array `aA` be the memory `mA` the program was generated from, presenting the
-logical image `im` (all values in `[0, mm)`: no exception is thrown and every increment lands inside the `mm × mm`
-matrix), let the result view address the `mm × mm` cells injectively and let the matrix start at zero (as
-`texture.py` allocates it). Then after the SOLO run of the compiled step program — one read-modify-write
-`++res.at(val, val2)` per element whose neighbour at `d` lies inside the image (mode `ignore`), at an address
-that depends on the two values read — cell `(i, j)` of the result holds exactly `(C19.coocModel mm im d)[i*mm + j]`,
-the value of the model the driver runs (`c19 kind=cooc`). With `C12_concurrent_calls_independent` the same
-matrix is there after every complete interleaving with any other calls that have disjoint outputs. -/
-theorem C12_cooccurence_program_computes_model (kcs : List KCall) (t : Nat) (vA vR vBc : C08.View)
-    (bc : Array Int) (mA : Int → Int) (aA aBc aRes aFd aReg : Nat)
-    (hk : kcs[t]? = some ((Kernel2.cooccurence vA vR vBc bc mA).call ⟨[aA, aBc], [aRes, aFd, aReg]⟩))
-    (hA1 : aA ≠ aRes) (hA2 : aA ≠ aFd) (hA3 : aA ≠ aReg) (hR1 : aRes ≠ aFd) (hR : aRes ≠ aReg)
-    (d : List Int) (rest : List (List Int)) (hfp : C07.footprint vBc.shape bc = d :: rest)
-    (hd : d.length = vA.shape.length)
-    (mm : Nat) (im : Img Int) (hshape : im.shape = vA.shape)
-    (hAlen : vA.strides.length = vA.shape.length)
-    (hAv : ∀ q, inside vA.shape q = true → mA (vA.addr (q.map Int.toNat)) = im.getD q 0)
-    (hval : ∀ q, inside vA.shape q = true → 0 ≤ im.getD q 0 ∧ im.getD q 0 < (mm : Int))
-    (hRinj : ∀ i j i' j', i < mm → j < mm → i' < mm → j' < mm → vR.addr [i, j] = vR.addr [i', j'] →
-      i = i' ∧ j = j')
-    (m : Mem) (hm : ∀ a, m ((KLoc.mk aA a).toLoc (kcs.map (·.call))) = mA a)
-    (hZ : ∀ i j, i < mm → j < mm → m ((KLoc.mk aRes (vR.addr [i, j])).toLoc (kcs.map (·.call))) = 0)
-    (i j : Nat) (hi : i < mm) (hj : j < mm) :
-    solo (compile kcs) t m ((KLoc.mk aRes (vR.addr [i, j])).toLoc (kcs.map (·.call))) =
-      (((C19.coocModel mm im d).getD (i * mm + j) 0 : Nat) : Int) :=
-  cooccurence_solo_value kcs t vA vR vBc bc mA aA aBc aRes aFd aReg hk hA1 hA2 hA3 hR1 hR d rest hfp hd mm im
-    hshape hAlen hAv hval hRinj m hm hZ i j hi hj
-
-/-- **C12-T4 (tie: the borders program computes `C13.bordersModel`).** Let call number `t` of ANY family of calls be
-`borders` (any border mode, any structuring element of the image's rank, any view of the labeled image with one
-stride per axis and positive axis lengths) on arrays `[aA, aBc]` → `[aOut, aFd, aReg]` (result, `filter_data_`,
-register), the image array distinct from the owned ones and the result array from the other two. Let the initial
-memory of array `aA` be the memory `mA` the program was generated from, presenting the flat label list `labels`,
-let the result start at zero (`labeled.borders` zero-fills it) and not overlap itself. Then after the SOLO run
-of the compiled step program — per pixel the neighbours are read up to the first one that differs and `true` is
-stored only then; other pixels store nothing — the result location of pixel `k` holds `1` exactly when
-`(C13.bordersModel mode shape labels footprint)[k]` is `true` and `0` otherwise: the model the driver runs
-(`c13 kind=borders`). With `C12_concurrent_calls_independent` the same values are there after every complete
-interleaving with any other calls that have disjoint outputs. -/
-theorem C12_borders_program_computes_model (kcs : List KCall) (t : Nat) (md : Mode) (vA vOut vBc : C08.View)
-    (bc : Array Int) (mA : Int → Int) (aA aBc aOut aFd aReg : Nat)
-    (hk : kcs[t]? = some ((Kernel2.borders md vA vOut vBc bc mA).call ⟨[aA, aBc], [aOut, aFd, aReg]⟩))
-    (hA1 : aA ≠ aOut) (hA2 : aA ≠ aFd) (hA3 : aA ≠ aReg) (hO1 : aOut ≠ aFd) (hO2 : aOut ≠ aReg)
-    (labels : List Int) (hlen : labels.length = shapeSize vA.shape)
-    (hpos : ∀ d ∈ vA.shape, 0 < d) (hAlen : vA.strides.length = vA.shape.length)
-    (hoffs : ∀ d ∈ C07.footprint vBc.shape bc, d.length = vA.shape.length)
-    (hAv : ∀ q, inside vA.shape q = true → mA (vA.addr (q.map Int.toNat)) = labels.getD (ravelI vA.shape q) 0)
-    (m : Mem) (hm : ∀ a, m ((KLoc.mk aA a).toLoc (kcs.map (·.call))) = mA a)
-    (hZ : ∀ k, k < shapeSize vA.shape → m ((KLoc.mk aOut (iterAddr vOut k)).toLoc (kcs.map (·.call))) = 0)
-    (hinj : ∀ k k', k < shapeSize vA.shape → k' < shapeSize vA.shape →
-        iterAddr vOut k = iterAddr vOut k' → k = k')
-    (k : Nat) (hkn : k < shapeSize vA.shape) :
-    solo (compile kcs) t m ((KLoc.mk aOut (iterAddr vOut k)).toLoc (kcs.map (·.call))) =
-      if (C13.bordersModel md vA.shape labels (C07.footprint vBc.shape bc)).getD k false then 1 else 0 :=
-  borders_solo_value kcs t md vA vOut vBc bc mA aA aBc aOut aFd aReg hk hA1 hA2 hA3 hO1 hO2 labels hlen hpos hAlen
-    hoffs hAv m hm hZ hinj k hkn
-
-/-! ## non-vacuity -/
-
-namespace Mahotas.C12.Examples2
-open Mahotas.C12
-
-def memOf (calls : List Call) (content : List (KLoc × Val)) : Mem :=
-  ⟨fun l => ((content.find? (fun p => p.1.toLoc calls == l)).map (·.2)).getD 0⟩
-
-def v3 : C08.View := { base := 0, shape := [3], strides := [1] }
-def v4 : C08.View := { base := 0, shape := [4], strides := [1] }
-def outOf (calls : List Call) (m : Mem) (a n : Nat) : List Int :=
-  (List.range n).map fun (i : Nat) => m ((KLoc.mk a (i : Int)).toLoc calls)
-
-/-- a `dilate` call (uint8, 4 pixels, element `[1,1,0]`) and a `rank_filter` call (mode reflect, rank 1 of 3)
-reading the SAME input array 10; structuring elements 11 / 12; owned arrays 20, 21 / 30 … 33 -/
-def kd : Kernel2 := .dilate (dtU 8) v4 v4 v3 #[1, 1, 0]
-def kr : Kernel2 := .rank .reflect 1 v4 v4 v3 #[1, 1, 1]
-def kcs : List KCall := [kd.call ⟨[10, 11], [20, 21]⟩, kr.call ⟨[10, 12], [30, 31, 32, 33]⟩]
-def content : List (KLoc × Val) :=
-  [(⟨10,0⟩,5),(⟨10,1⟩,3),(⟨10,2⟩,7),(⟨10,3⟩,0),(⟨11,0⟩,1),(⟨11,1⟩,1),(⟨11,2⟩,0),(⟨12,0⟩,1),(⟨12,1⟩,1),(⟨12,2⟩,1)]
-
-/-- the hypothesis "disjoint outputs" of `C12_concurrent_calls_independent` holds for `kcs` -/
-theorem kcs_disjoint : DisjointOutputs (kcs.map (·.call)) := by
-  intro i j ci cj hi hj a ha hb
-  have hi' : i = 0 ∨ i = 1 := by
-    have := (List.getElem?_eq_some_iff.1 hi).1; simp [kcs] at this; omega
-  have hj' : j = 0 ∨ j = 1 := by
-    have := (List.getElem?_eq_some_iff.1 hj).1; simp [kcs] at this; omega
-  rcases hi' with rfl | rfl <;> rcases hj' with rfl | rfl <;> simp [kcs, Kernel2.call] at hi hj <;>
-    subst hi <;> subst hj <;> simp at ha hb <;> omega
-
-/-- … and the conclusion is not trivial: in the interleaving below (16 steps of the dilation, 43 of the rank
-filter) the dilate call ends with `C01.dilateModel` of `[5,3,7,0]` = `[6,8,8,0]` and the rank filter with
-`C07.rankAt` = `[5,5,3,0]`, each equal to its solo run; both programs are non-empty, every step is inside its
-call's footprint and every role inside the arity -/
-example :
-    let calls := kcs.map (·.call)
-    let m0 := memOf calls content
-    let sched := (List.range 43).flatMap fun _ => [1, 0]
-    outOf calls (run (compile kcs) sched (init m0)).mem 20 4 = [6, 8, 8, 0] ∧
-    outOf calls (run (compile kcs) sched (init m0)).mem 30 4 = [5, 5, 3, 0] ∧
-    outOf calls (solo (compile kcs) 0 m0) 20 4 = [6, 8, 8, 0] ∧
-    outOf calls (solo (compile kcs) 1 m0) 30 4 = [5, 5, 3, 0] ∧
-    (C01.dilateModel (dtU 8) ⟨[4], #[5, 3, 7, 0]⟩ (C01.support [3] #[1, 1, 0] false)).toList = [6, 8, 8, 0] ∧
-    (kcs.map fun kc => kc.prog.length) = [16, 43] ∧
-    (kcs.all fun kc => kc.prog.all (KStep.withinB kc.call)) = true ∧
-    (kd.raw.all (RStep.rolesOk kd.arity) && kr.raw.all (RStep.rolesOk kr.arity)) = true := by
-  decide +kernel
-
-/-- `template_match` (mode constant), `cooccurence` (2×2 image, direction `(0,1)`, 3×3 result matrix) and
-`borders`: the solo runs leave `C07.tmAt`, `C19.coocModel` and the border marks; roles inside the arities -/
-example :
-    let kt : Kernel2 := .templateMatch .constant false v4 v4 v3
-    let ct : Call := ⟨[10, 11], [20]⟩
-    outOf [ct] (solo (compile [kt.call ct]) 0 (memOf [ct] content)) 20 4 = [25, 69, 40, 37] ∧
-    (allPos [4]).map (C07.tmAt .constant ⟨[4], #[5, 3, 7, 0]⟩ [3] #[1, 1, 0]) = [25, 69, 40, 37] ∧
-    let v22 : C08.View := { base := 0, shape := [2, 2], strides := [2, 1] }
-    let v33 : C08.View := { base := 0, shape := [3, 3], strides := [3, 1] }
-    let mA : Int → Int := fun a => if a = 0 ∨ a = 2 then 1 else if a = 1 ∨ a = 3 then 2 else 0
-    let kc : Kernel2 := .cooccurence v22 v33 v33 #[0, 0, 0, 0, 0, 1, 0, 0, 0] mA
-    let cc : Call := ⟨[1, 2], [3, 4, 5]⟩
-    outOf [cc] (solo (compile [kc.call cc]) 0
-      (memOf [cc] ((List.range 4).map fun (a : Nat) => (⟨1, (a : Int)⟩, mA a)))) 3 9 = [0, 0, 0, 0, 0, 2, 0, 0, 0] ∧
-    (C19.coocModel 3 ⟨[2, 2], #[1, 2, 1, 2]⟩ [0, 1]).toList = [0, 0, 0, 0, 0, 2, 0, 0, 0] ∧
-    let mB : Int → Int := fun a => if a < 2 then 1 else 2
-    let kb : Kernel2 := .borders .constant v4 v4 v3 #[1, 1, 1] mB
-    outOf [cc] (solo (compile [kb.call cc]) 0
-      (memOf [cc] ((List.range 4).map fun (a : Nat) => (⟨1, (a : Int)⟩, mB a)))) 3 4 = [0, 1, 1, 0] ∧
-    (kt.raw.all (RStep.rolesOk kt.arity) && kc.raw.all (RStep.rolesOk kc.arity) &&
-      kb.raw.all (RStep.rolesOk kb.arity)) = true ∧
-    ((kc.call cc).prog.all (KStep.withinB cc) && (kb.call cc).prog.all (KStep.withinB cc)) = true := by
-  decide +kernel
-
-/-- `py_dt` on a 2×3 array with origins (104 steps: the run of `C05.pyDt` is reproduced, values and origins),
-`thin` on a 4×4 square in its zero frame (1540 steps: the run of `C15.thinCore` is reproduced), `zoom_shift`
-(order 1, shift 1/2, 3 output elements: 12 steps); all inside their footprints and arities -/
-example :
-    let f0 : Array Int := #[0, 100, 100, 100, 0, 100]
-    let kdist : Kernel2 := .distance true (f0, #[0, 1, 2, 3, 4, 5]) 2 3 0 3 1 0 3 1
-    let cdist : Call := ⟨[], [1, 2, 3, 4, 5, 6]⟩
-    let m := solo (compile [kdist.call cdist]) 0
-      (memOf [cdist] ((List.range 6).flatMap fun (a : Nat) => [(⟨1, (a : Int)⟩, f0.getD a 0), (⟨5, (a : Int)⟩, (a : Int))]))
-    (outOf [cdist] m 1 6, outOf [cdist] m 5 6) = ([0, 1, 2, 1, 0, 1], [0, 0, 4, 0, 4, 4]) ∧
-    C05.pyDt (f0, #[0, 1, 2, 3, 4, 5]) 2 3 0 3 1 0 3 1 = (#[0, 1, 2, 1, 0, 1], #[0, 0, 4, 0, 4, 4]) ∧
-    (kdist.call cdist).prog.length = 104 ∧
-    ((kdist.call cdist).prog.all (KStep.withinB cdist) && kdist.raw.all (RStep.rolesOk kdist.arity)) = true ∧
-    let kz : Kernel2 := .zoomShift Rat.floor 1 .nearest v4 v3 [some (1 / 2 : Rat)] [none]
-    let cz : Call := ⟨[1, 2, 3], [4, 5, 6]⟩
-    (kz.call cz).prog.length = 12 ∧
-    ((kz.call cz).prog.all (KStep.withinB cz) && kz.raw.all (RStep.rolesOk kz.arity)) = true := by
-  decide +kernel
-
-/-- a 2×2 block in its zero frame -/
-def bin : C15.Bin := C15.Bin.ofInts 4 4 [0,0,0,0, 0,1,1,0, 0,1,1,0, 0,0,0,0]
-
-/-- `thin` with `max_iter = 1` on the 2×2 block (482 steps: element table, one outer iteration of eight passes):
-the solo run reproduces `C15.thinCore` (one pixel is cleared); inside footprint and arity -/
-example :
-    let v44 : C08.View := { base := 0, shape := [4, 4], strides := [4, 1] }
-    let kth : Kernel2 := .thin v44 v44 bin 1
-    let cth : Call := ⟨[], [1, 2, 3, 4]⟩
-    (kth.call cth).prog.length = 482 ∧
-    ((kth.call cth).prog.all (KStep.withinB cth) && kth.raw.all (RStep.rolesOk kth.arity)) = true ∧
-    outOf [cth] (solo (compile [kth.call cth]) 0
-      (memOf [cth] ((List.range 16).map fun (a : Nat) => (⟨1, (a : Int)⟩, bin.toInts.getD a 0)))) 1 16 =
-      (C15.thinCore bin 1).toInts ∧
-    (C15.thinCore bin 1).toInts ≠ bin.toInts := by
-  decide +kernel
-
-end Mahotas.C12.Examples2
